@@ -304,3 +304,5 @@ def run(cx):
     # registration is append-only for the whole process: an evaluation never edits the registry's dependency sets (C01.R5 re-checked)
     from . import c01
     cx.borrow(c01.r5b_graph_as_requested, "C01.R5", "C05.R2", "registration order is append-only; nothing an evaluation does removes an implementation from a registry point")
+    # the contexts an implementation handles, and with them who is told to ignore whom, are read off a walk of the live graph (C01.R9 re-checked)
+    cx.borrow(c01.r9_graph_queries_live, "C01.R9", "C05.R3b", "the context walk sees every implementation registered so far (no stale memo of a graph walk; C01.R9)")
